@@ -39,7 +39,7 @@ theorem mayAdd_busy {s : St} (h : Inv s) {t : Nat} (hm : mayAdd s t = true) :
 
 /-- generic: thread `t` (not idle-outside) enters `adding q` for a not-yet-added taskpool -/
 theorem inv_enterAdd {s : St} {t q : Nat} {tp : Tp} (h : Inv s) (htp : s.tps[q]? = some tp) (hst : tp.st = .notAdded)
-    (htl : t < s.subs.length) (hnadd : ∀ q', s.subs[t]? ≠ some (.adding q'))
+    (htl : t < s.subs.length) (hnadd : ∀ q', s.subs[t]? ≠ some (.adding q')) (hnncb : ∀ q', s.subs[t]? ≠ some (.ncb q'))
     (hbusy : ¬ (s.mm = .leaving ∨ (s.mm = .atBarrier ∧ ∀ m ∈ s.wm, m = .exited)))
     (hw : ∀ w m, s.wm[w]? = some m → m ≠ .looping → t ≠ w + 1)
     (hm : (s.mm = .atBarrier ∨ s.mm = .leaving ∨ s.mm = .starting) → t ≠ 0) :
@@ -47,7 +47,7 @@ theorem inv_enterAdd {s : St} {t q : Nat} {tp : Tp} (h : Inv s) (htp : s.tps[q]?
   obtain ⟨hpl, _⟩ := List.getElem?_eq_some_iff.1 htp
   refine { len1 := ?len1, len2 := ?len2, cnt := ?cnt, tokM := ?tokM, notSt := ?notSt, wIdle := ?wIdle, mIdle := ?mIdle,
            taskSt := ?taskSt, taskCnt := ?taskCnt, cbFwd := ?cbFwd, cbBack := ?cbBack, addFwd := ?addFwd,
-           addBack := ?addBack, allOut := ?allOut, leaving := ?leaving }
+           addBack := ?addBack, nFwd := ?nFwd, nBack := ?nBack, allOut := ?allOut, leaving := ?leaving }
   all_goals try (keep h)
   case len1 => simpa [tick] using h.len1
   case cnt =>
@@ -102,13 +102,15 @@ theorem inv_enterAdd {s : St} {t q : Nat} {tp : Tp} (h : Inv s) (htp : s.tps[q]?
     · have hb := h.addBack q' x hx' hxs
       have hne : t ≠ x.by_ := by intro e; rw [← e] at hb; exact hnadd q' hb
       rw [List.getElem?_set_ne hne]; exact hb
+  case nFwd => exact nf_subs (nf_set h.nFwd htp (by rw [hst]; simp)) (by intro q' e; cases e)
+  case nBack => exact nb_subs (nb_set h.nBack (by simp)) hnncb
   case leaving => intro hm'; exact (hbusy (Or.inl hm')).elim
 
 theorem inv_addCall {s : St} {t q : Nat} {tp : Tp} (h : Inv s) (htp : s.tps[q]? = some tp)
     (hg : mayAdd s t = true ∧ tp.st = .notAdded) :
     Inv (tick { s with subs := s.subs.set t (.adding q), tps := s.tps.set q { tp with st := .adding, by_ := t } }) := by
   obtain ⟨hsu, htl, hbusy, hw, hm⟩ := mayAdd_busy h hg.1
-  exact inv_enterAdd h htp hg.2 (by rw [h.len1]; exact htl) (fun q' e => by rw [hsu] at e; cases e) hbusy hw hm
+  exact inv_enterAdd h htp hg.2 (by rw [h.len1]; exact htl) (fun q' e => by rw [hsu] at e; cases e) (fun q' e => by rw [hsu] at e; cases e) hbusy hw hm
 
 /-- a thread inside add_taskpool is neither an idle master outside the loops nor a non-looping worker -/
 theorem sub_busy {s : St} (h : Inv s) {t : Nat} {u : Sub} (hsu : s.subs[t]? = some u) (hu : u ≠ .none) :
@@ -134,7 +136,7 @@ theorem inv_startupAdd {s : St} {t q q0 : Nat} {tp : Tp} (h : Inv s) (hsu : s.su
     (htp : s.tps[q]? = some tp) (hst : tp.st = .notAdded) :
     Inv (tick { s with subs := s.subs.set t (.adding q), tps := s.tps.set q { tp with st := .adding, by_ := t } }) := by
   obtain ⟨htl, hbusy, hw, hm⟩ := sub_busy h hsu (by simp)
-  exact inv_enterAdd h htp hst htl (fun q' e => by rw [hsu] at e; cases e) hbusy hw hm
+  exact inv_enterAdd h htp hst htl (fun q' e => by rw [hsu] at e; cases e) (fun q' e => by rw [hsu] at e; cases e) hbusy hw hm
 
 /-- generic: the taskpool being added by `t` moves inside the group {adding, earlyCb, earlyDec} -/
 theorem inv_addMove {s : St} {t q : Nat} {tp tp' : Tp} {a : Int} (h : Inv s) (hsu : s.subs[t]? = some (.adding q))
@@ -149,7 +151,7 @@ theorem inv_addMove {s : St} {t q : Nat} {tp tp' : Tp} {a : Int} (h : Inv s) (hs
   obtain ⟨hpl, _⟩ := List.getElem?_eq_some_iff.1 htp
   refine { len1 := ?len1, len2 := ?len2, cnt := ?cnt, tokM := ?tokM, notSt := ?notSt, wIdle := ?wIdle, mIdle := ?mIdle,
            taskSt := ?taskSt, taskCnt := ?taskCnt, cbFwd := ?cbFwd, cbBack := ?cbBack, addFwd := ?addFwd,
-           addBack := ?addBack, allOut := ?allOut, leaving := ?leaving }
+           addBack := ?addBack, nFwd := ?nFwd, nBack := ?nBack, allOut := ?allOut, leaving := ?leaving }
   all_goals try (keep h)
   case cnt =>
     have := h.cnt
@@ -192,6 +194,8 @@ theorem inv_addMove {s : St} {t q : Nat} {tp tp' : Tp} {a : Int} (h : Inv s) (hs
     rcases get_set_cases _ _ _ _ _ hx with ⟨rfl, hxe, _⟩ | ⟨_, hx'⟩
     · subst hxe; rw [hby, hbyt]; exact hsu
     · exact h.addBack q' x hx' hxs
+  case nFwd => exact nf_set h.nFwd htp (by intro e; rw [e] at hst; rcases hst with e' | e' | e' <;> cases e')
+  case nBack => exact nb_set h.nBack (by intro e; rw [e] at hg; rcases hg with e' | e' | e' <;> cases e')
   case allOut => intro hm hw; exact (hbusy (Or.inr ⟨hm, hw⟩)).elim
   case leaving => intro hm; exact (hbusy (Or.inl hm)).elim
 
@@ -208,7 +212,7 @@ theorem inv_addInc {s : St} {t q : Nat} {tp tp' : Tp} (h : Inv s) (hsu : s.subs[
   obtain ⟨hpl, _⟩ := List.getElem?_eq_some_iff.1 htp
   refine { len1 := ?len1, len2 := ?len2, cnt := ?cnt, tokM := ?tokM, notSt := ?notSt, wIdle := ?wIdle, mIdle := ?mIdle,
            taskSt := ?taskSt, taskCnt := ?taskCnt, cbFwd := ?cbFwd, cbBack := ?cbBack, addFwd := ?addFwd,
-           addBack := ?addBack, allOut := ?allOut, leaving := ?leaving }
+           addBack := ?addBack, nFwd := ?nFwd, nBack := ?nBack, allOut := ?allOut, leaving := ?leaving }
   all_goals try (keep h)
   case len1 => simpa [tick] using h.len1
   case cnt =>
@@ -264,6 +268,10 @@ theorem inv_addInc {s : St} {t q : Nat} {tp tp' : Tp} (h : Inv s) (hsu : s.subs[
     · have hb := h.addBack q' x hx' hxs
       have hne : t ≠ x.by_ := by intro e; rw [← e, hsu] at hb; cases hb; exact hqq rfl
       rw [List.getElem?_set_ne hne]; exact hb
+  case nFwd =>
+    exact nf_subs (nf_set h.nFwd htp (by intro e; rw [e] at hst; rcases hst with e' | e' | e' <;> cases e')) (by intro q' e; cases e)
+  case nBack =>
+    exact nb_subs (nb_set h.nBack (by intro e; rcases hg with e' | e' <;> rw [e'] at e <;> cases e)) (fun q' e => by rw [hsu] at e; cases e)
   case allOut => intro hm' hw'; exact (hbusy (Or.inr ⟨hm', hw'⟩)).elim
   case leaving => intro hm'; exact (hbusy (Or.inl hm')).elim
 
@@ -271,7 +279,7 @@ theorem inv_addReturn {s : St} {t q0 : Nat} (h : Inv s) (hsu : s.subs[t]? = some
     Inv (tick { s with subs := s.subs.set t .none }) := by
   refine { len1 := ?len1, len2 := ?len2, cnt := ?cnt, tokM := ?tokM, notSt := ?notSt, wIdle := ?wIdle, mIdle := ?mIdle,
            taskSt := ?taskSt, taskCnt := ?taskCnt, cbFwd := ?cbFwd, cbBack := ?cbBack, addFwd := ?addFwd,
-           addBack := ?addBack, allOut := ?allOut, leaving := ?leaving }
+           addBack := ?addBack, nFwd := ?nFwd, nBack := ?nBack, allOut := ?allOut, leaving := ?leaving }
   all_goals try (keep h)
   case len1 => simpa [tick] using h.len1
   case wIdle =>
@@ -293,20 +301,24 @@ theorem inv_addReturn {s : St} {t q0 : Nat} (h : Inv s) (hsu : s.subs[t]? = some
     have hb := h.addBack q' x hx hxs
     have hne : t ≠ x.by_ := by intro e; rw [← e, hsu] at hb; cases hb
     simp only [tick]; rw [List.getElem?_set_ne hne]; exact hb
+  case nFwd => exact nf_subs h.nFwd (by intro q' e; cases e)
+  case nBack => exact nb_subs h.nBack (fun q' e => by rw [hsu] at e; cases e)
 
-/-- generic: an update of a taskpool descriptor that keeps its state, owner and task counters
-    (arm: ready := true; DTD insert: total += 1) -/
+/-- generic: an update of a taskpool descriptor that keeps its state and owner and moves `started` and
+    `ended` together (arm: ready := true; DTD insert: total += 1; startup hook: pending actions declared;
+    release of a pending action that is not the last) -/
 theorem inv_tpUpdate {s : St} {p : Nat} {tp tp' : Tp} (h : Inv s) (htp : s.tps[p]? = some tp)
     (hst : tp'.st = tp.st) (hby : tp'.by_ = tp.by_)
-    (hcn : tp'.started = tp.started ∧ tp'.ended = tp.ended ∧ tp.total ≤ tp'.total) :
+    (hcn : tp'.started + tp.ended = tp.started + tp'.ended ∧ (tp.started ≤ tp.total → tp'.started ≤ tp'.total)) :
     Inv (tick { s with tps := s.tps.set p tp' }) := by
   obtain ⟨hpl, _⟩ := List.getElem?_eq_some_iff.1 htp
   have key : ∀ (p' : Nat) (x : Tp), (s.tps.set p tp')[p']? = some x →
-      ∃ y : Tp, s.tps[p']? = some y ∧ x.st = y.st ∧ x.by_ = y.by_ ∧ x.started = y.started ∧ x.ended = y.ended ∧ y.total ≤ x.total := by
+      ∃ y : Tp, s.tps[p']? = some y ∧ x.st = y.st ∧ x.by_ = y.by_ ∧ x.started + y.ended = y.started + x.ended ∧
+        (y.started ≤ y.total → x.started ≤ x.total) := by
     intro p' x hx
     rcases get_set_cases _ _ _ _ _ hx with ⟨rfl, hxe, _⟩ | ⟨_, hx'⟩
-    · subst hxe; exact ⟨tp, htp, hst, hby, hcn.1, hcn.2.1, hcn.2.2⟩
-    · exact ⟨x, hx', rfl, rfl, rfl, rfl, Nat.le_refl _⟩
+    · subst hxe; exact ⟨tp, htp, hst, hby, hcn.1, hcn.2⟩
+    · exact ⟨x, hx', rfl, rfl, rfl, fun e => e⟩
   have key2 : ∀ (p' : Nat) (y : Tp), s.tps[p']? = some y →
       ∃ x : Tp, (s.tps.set p tp')[p']? = some x ∧ x.st = y.st ∧ x.by_ = y.by_ := by
     intro p' y hy
@@ -315,7 +327,7 @@ theorem inv_tpUpdate {s : St} {p : Nat} {tp tp' : Tp} (h : Inv s) (htp : s.tps[p
     · exact ⟨y, by rw [List.getElem?_set_ne hne]; exact hy, rfl, rfl⟩
   refine { len1 := ?len1, len2 := ?len2, cnt := ?cnt, tokM := ?tokM, notSt := ?notSt, wIdle := ?wIdle, mIdle := ?mIdle,
            taskSt := ?taskSt, taskCnt := ?taskCnt, cbFwd := ?cbFwd, cbBack := ?cbBack, addFwd := ?addFwd,
-           addBack := ?addBack, allOut := ?allOut, leaving := ?leaving }
+           addBack := ?addBack, nFwd := ?nFwd, nBack := ?nBack, allOut := ?allOut, leaving := ?leaving }
   all_goals try (keep h)
   case cnt => simp only [tick]; rw [csum_set_same _ _ _ _ htp hst]; exact h.cnt
   case taskSt =>
@@ -325,9 +337,10 @@ theorem inv_tpUpdate {s : St} {p : Nat} {tp tp' : Tp} (h : Inv s) (htp : s.tps[p
     exact ⟨x, hx, hxs.trans hys⟩
   case taskCnt =>
     intro p' x hx
-    obtain ⟨y, hy, _, _, h3, h4, h5⟩ := key p' x hx
+    obtain ⟨y, hy, _, _, h3, h4⟩ := key p' x hx
     have := h.taskCnt p' y hy
     simp only [tick]
+    have := h4 this.2
     omega
   case cbFwd =>
     intro t' p' hb
@@ -349,6 +362,16 @@ theorem inv_tpUpdate {s : St} {p : Nat} {tp tp' : Tp} (h : Inv s) (htp : s.tps[p
     obtain ⟨y, hy, h1, h2, _⟩ := key q' x hx
     have := h.addBack q' y hy (h1 ▸ hxs)
     simp only [tick]; rw [h2]; exact this
+  case nFwd =>
+    intro t' q' hq
+    obtain ⟨y, hy, hys, hyb⟩ := h.nFwd t' q' hq
+    obtain ⟨x, hx, hxs, hxb⟩ := key2 q' y hy
+    exact ⟨x, hx, hxs.trans hys, hxb.trans hyb⟩
+  case nBack =>
+    intro q' x hx hxs
+    obtain ⟨y, hy, h1, h2, _⟩ := key q' x hx
+    have := h.nBack q' y hy (h1 ▸ hxs)
+    simp only [tick]; rw [h2]; exact this
   case leaving =>
     intro hm
     refine ⟨(h.leaving hm).1, ?_⟩
@@ -359,5 +382,201 @@ theorem inv_tpUpdate {s : St} {p : Nat} {tp tp' : Tp} (h : Inv s) (htp : s.tps[p
     obtain ⟨y, hy, h1, _⟩ := key p' x hx
     have := (h.leaving hm).2 y (List.mem_of_getElem? hy)
     rw [h1]; exact this
+
+/-- a thread inside a completion callback is neither idle-outside nor a non-looping worker -/
+theorem cb_busy {s : St} (h : Inv s) {t m : Nat} (hbt : s.bases[t]? = some (.cb m)) :
+    t < s.bases.length ∧
+    ¬ (s.mm = .leaving ∨ (s.mm = .atBarrier ∧ ∀ m ∈ s.wm, m = .exited)) ∧
+    (∀ w m, s.wm[w]? = some m → m ≠ .looping → t ≠ w + 1) ∧
+    ((s.mm = .atBarrier ∨ s.mm = .leaving ∨ s.mm = .starting) → t ≠ 0) := by
+  have htl : t < s.bases.length := (List.getElem?_eq_some_iff.1 hbt).1
+  refine ⟨htl, ?_, ?_, ?_⟩
+  · intro ho
+    have hi := (all_idle h ho t htl).1
+    rw [hbt] at hi; cases hi
+  · intro w m' hw hm' e
+    subst e
+    have hi := (h.wIdle w m' hw hm').1
+    rw [hbt] at hi; cases hi
+  · intro hm' e
+    subst e
+    have hi := (h.mIdle hm').1
+    rw [hbt] at hi; cases hi
+
+/-- the release of the last pending action of q by a callback: q's termination is detected and its
+    callback starts, nested (added → inCbN, the thread's sub-state becomes ncb q) -/
+theorem inv_nestEnter {s : St} {t q m : Nat} {tp : Tp} (h : Inv s) (hbt : s.bases[t]? = some (.cb m))
+    (hsu : s.subs[t]? = some .none) (htp : s.tps[q]? = some tp)
+    (hg : tp.st = .added ∧ tp.ended = tp.total ∧ tp.started = tp.total) :
+    Inv (tick { s with subs := s.subs.set t (.ncb q),
+                       tps := s.tps.set q { tp with pend := 0, st := .inCbN, cbs := tp.cbs + 1, cbAt := s.clock, by_ := t } }) := by
+  obtain ⟨hst, hlt, hse⟩ := hg
+  obtain ⟨htl, hbusy, hw, hm⟩ := cb_busy h hbt
+  have htl' : t < s.subs.length := by rw [h.len1]; exact htl
+  obtain ⟨hpl, _⟩ := List.getElem?_eq_some_iff.1 htp
+  have hcnt0 : s.bases.count (Base.task q) = 0 := by have := h.taskCnt q tp htp; omega
+  refine { len1 := ?len1, len2 := ?len2, cnt := ?cnt, tokM := ?tokM, notSt := ?notSt, wIdle := ?wIdle, mIdle := ?mIdle,
+           taskSt := ?taskSt, taskCnt := ?taskCnt, cbFwd := ?cbFwd, cbBack := ?cbBack, addFwd := ?addFwd,
+           addBack := ?addBack, nFwd := ?nFwd, nBack := ?nBack, allOut := ?allOut, leaving := ?leaving }
+  all_goals try (keep h)
+  case len1 => simpa [tick] using h.len1
+  case cnt =>
+    simp only [tick]; rw [csum_set_contrib _ _ _ _ htp]; exact h.cnt
+    simp [hst, contrib]
+  case wIdle =>
+    intro w m' hw' hm'
+    have hne := hw w m' hw' hm'
+    simp only [tick, List.getElem?_set_ne hne]
+    exact h.wIdle w m' hw' hm'
+  case mIdle =>
+    intro hm'
+    have hne := hm hm'
+    simp only [tick, List.getElem?_set_ne hne]
+    exact h.mIdle hm'
+  case taskSt =>
+    intro t' p' hb
+    simp only [tick] at hb
+    obtain ⟨x, hx, hxs⟩ := h.taskSt t' p' hb
+    have hne : q ≠ p' := by
+      intro e; subst e
+      have := count_pos_of_get hb
+      omega
+    exact ⟨x, by simp only [tick]; rw [List.getElem?_set_ne hne]; exact hx, hxs⟩
+  case taskCnt =>
+    intro p' x hx
+    simp only [tick] at hx ⊢
+    rcases get_set_cases _ _ _ _ _ hx with ⟨rfl, hxe, _⟩ | ⟨_, hx'⟩
+    · subst hxe; have := h.taskCnt q tp htp; simp only []; omega
+    · exact h.taskCnt p' x hx'
+  case cbFwd =>
+    intro t' p' hb
+    obtain ⟨x, hx, hxs, hxb⟩ := h.cbFwd t' p' hb
+    have hne : q ≠ p' := by intro e; subst e; rw [htp] at hx; cases hx; rw [hst] at hxs; cases hxs
+    exact ⟨x, by simp only [tick]; rw [List.getElem?_set_ne hne]; exact hx, hxs, hxb⟩
+  case cbBack =>
+    intro p' x hx hxs
+    simp only [tick] at hx ⊢
+    rcases get_set_cases _ _ _ _ _ hx with ⟨_, hxe, _⟩ | ⟨_, hx'⟩
+    · subst hxe; cases hxs
+    · exact h.cbBack p' x hx' hxs
+  case addFwd =>
+    intro t' q' hq
+    simp only [tick] at hq ⊢
+    rcases get_set_cases _ _ _ _ _ hq with ⟨_, hx, _⟩ | ⟨_, hq'⟩
+    · cases hx
+    · obtain ⟨x, hx, hxs, hxb⟩ := h.addFwd t' q' hq'
+      have hne : q ≠ q' := by
+        intro e; subst e; rw [htp] at hx; cases hx; rw [hst] at hxs; rcases hxs with e | e | e <;> cases e
+      exact ⟨x, by rw [List.getElem?_set_ne hne]; exact hx, hxs, hxb⟩
+  case addBack =>
+    intro q' x hx hxs
+    simp only [tick] at hx ⊢
+    rcases get_set_cases _ _ _ _ _ hx with ⟨_, hxe, _⟩ | ⟨_, hx'⟩
+    · subst hxe; simp only [] at hxs; rcases hxs with e | e | e <;> cases e
+    · have hb := h.addBack q' x hx' hxs
+      have hne : t ≠ x.by_ := by intro e; rw [← e, hsu] at hb; cases hb
+      rw [List.getElem?_set_ne hne]; exact hb
+  case nFwd =>
+    intro t' q' hq
+    simp only [tick] at hq ⊢
+    rcases get_set_cases _ _ _ _ _ hq with ⟨rfl, hx, _⟩ | ⟨_, hq'⟩
+    · cases hx; exact ⟨_, List.getElem?_set_self hpl, rfl, rfl⟩
+    · obtain ⟨x, hx, hxs, hxb⟩ := h.nFwd t' q' hq'
+      have hne : q ≠ q' := by intro e; subst e; rw [htp] at hx; cases hx; rw [hst] at hxs; cases hxs
+      exact ⟨x, by rw [List.getElem?_set_ne hne]; exact hx, hxs, hxb⟩
+  case nBack =>
+    intro q' x hx hxs
+    simp only [tick] at hx ⊢
+    rcases get_set_cases _ _ _ _ _ hx with ⟨rfl, hxe, _⟩ | ⟨_, hx'⟩
+    · subst hxe; exact List.getElem?_set_self htl'
+    · have hb := h.nBack q' x hx' hxs
+      have hne : t ≠ x.by_ := by intro e; rw [← e, hsu] at hb; cases hb
+      rw [List.getElem?_set_ne hne]; exact hb
+  case leaving => intro hm'; exact (hbusy (Or.inl hm')).elim
+
+/-- the decrement that ends a nested termination -/
+theorem inv_nestDec {s : St} {t q : Nat} {tp : Tp} (h : Inv s) (hsu : s.subs[t]? = some (.ncb q)) (htp : s.tps[q]? = some tp) :
+    Inv (tick { s with active := s.active - 1, subs := s.subs.set t .none,
+                       tps := s.tps.set q { tp with st := .done, decAt := s.clock } }) := by
+  obtain ⟨hst, hby⟩ : tp.st = .inCbN ∧ tp.by_ = t := by
+    obtain ⟨x, hx, hxs, hxb⟩ := h.nFwd t q hsu
+    rw [htp] at hx; cases hx; exact ⟨hxs, hxb⟩
+  obtain ⟨htl, hbusy, _, _⟩ := sub_busy h hsu (by simp)
+  obtain ⟨hpl, _⟩ := List.getElem?_eq_some_iff.1 htp
+  refine { len1 := ?len1, len2 := ?len2, cnt := ?cnt, tokM := ?tokM, notSt := ?notSt, wIdle := ?wIdle, mIdle := ?mIdle,
+           taskSt := ?taskSt, taskCnt := ?taskCnt, cbFwd := ?cbFwd, cbBack := ?cbBack, addFwd := ?addFwd,
+           addBack := ?addBack, nFwd := ?nFwd, nBack := ?nBack, allOut := ?allOut, leaving := ?leaving }
+  all_goals try (keep h)
+  case len1 => simpa [tick] using h.len1
+  case cnt =>
+    have := h.cnt
+    simp only [tick]; rw [csum_set' _ _ _ _ htp]
+    simp [hst, contrib]
+    rw [this]; cases s.token <;> simp <;> omega
+  case wIdle =>
+    intro w m' hw' hm'
+    obtain ⟨h1, h2⟩ := h.wIdle w m' hw' hm'
+    exact ⟨h1, set_keep h2⟩
+  case mIdle =>
+    intro hm'
+    obtain ⟨h1, h2⟩ := h.mIdle hm'
+    exact ⟨h1, set_keep h2⟩
+  case taskSt =>
+    intro t' p' hb
+    obtain ⟨x, hx, hxs⟩ := h.taskSt t' p' hb
+    have hne : q ≠ p' := by intro e; subst e; rw [htp] at hx; cases hx; rw [hst] at hxs; cases hxs
+    exact ⟨x, by simp only [tick]; rw [List.getElem?_set_ne hne]; exact hx, hxs⟩
+  case taskCnt =>
+    intro p' x hx
+    simp only [tick] at hx ⊢
+    rcases get_set_cases _ _ _ _ _ hx with ⟨rfl, hxe, _⟩ | ⟨_, hx'⟩
+    · subst hxe; exact h.taskCnt q tp htp
+    · exact h.taskCnt p' x hx'
+  case cbFwd =>
+    intro t' p' hb
+    obtain ⟨x, hx, hxs, hxb⟩ := h.cbFwd t' p' hb
+    have hne : q ≠ p' := by intro e; subst e; rw [htp] at hx; cases hx; rw [hst] at hxs; cases hxs
+    exact ⟨x, by simp only [tick]; rw [List.getElem?_set_ne hne]; exact hx, hxs, hxb⟩
+  case cbBack =>
+    intro p' x hx hxs
+    simp only [tick] at hx ⊢
+    rcases get_set_cases _ _ _ _ _ hx with ⟨_, hxe, _⟩ | ⟨_, hx'⟩
+    · subst hxe; cases hxs
+    · exact h.cbBack p' x hx' hxs
+  case addFwd =>
+    intro t' q' hq
+    simp only [tick] at hq ⊢
+    rcases get_set_cases _ _ _ _ _ hq with ⟨_, hx, _⟩ | ⟨_, hq'⟩
+    · cases hx
+    · obtain ⟨x, hx, hxs, hxb⟩ := h.addFwd t' q' hq'
+      have hne : q ≠ q' := by
+        intro e; subst e; rw [htp] at hx; cases hx; rw [hst] at hxs; rcases hxs with e | e | e <;> cases e
+      exact ⟨x, by rw [List.getElem?_set_ne hne]; exact hx, hxs, hxb⟩
+  case addBack =>
+    intro q' x hx hxs
+    simp only [tick] at hx ⊢
+    rcases get_set_cases _ _ _ _ _ hx with ⟨_, hxe, _⟩ | ⟨_, hx'⟩
+    · subst hxe; simp only [] at hxs; rcases hxs with e | e | e <;> cases e
+    · have hb := h.addBack q' x hx' hxs
+      have hne : t ≠ x.by_ := by intro e; rw [← e, hsu] at hb; cases hb
+      rw [List.getElem?_set_ne hne]; exact hb
+  case nFwd =>
+    intro t' q' hq
+    simp only [tick] at hq ⊢
+    rcases get_set_cases _ _ _ _ _ hq with ⟨_, hx, _⟩ | ⟨hne, hq'⟩
+    · cases hx
+    · obtain ⟨x, hx, hxs, hxb⟩ := h.nFwd t' q' hq'
+      have hne' : q ≠ q' := by intro e; subst e; rw [htp] at hx; cases hx; exact hne (hby.symm.trans hxb)
+      exact ⟨x, by rw [List.getElem?_set_ne hne']; exact hx, hxs, hxb⟩
+  case nBack =>
+    intro q' x hx hxs
+    simp only [tick] at hx ⊢
+    rcases get_set_cases _ _ _ _ _ hx with ⟨_, hxe, _⟩ | ⟨hqq, hx'⟩
+    · subst hxe; cases hxs
+    · have hb := h.nBack q' x hx' hxs
+      have hne : t ≠ x.by_ := by intro e; rw [← e, hsu] at hb; cases hb; exact hqq rfl
+      rw [List.getElem?_set_ne hne]; exact hb
+  case allOut => intro hm' hw'; exact (hbusy (Or.inr ⟨hm', hw'⟩)).elim
+  case leaving => intro hm'; exact (hbusy (Or.inl hm')).elim
 
 end ParsecVerif.Context
